@@ -37,16 +37,11 @@ Section RecipModel.
   Variable tm : @timing T.
   Variable b : nat.                                   (* the band under consideration *)
   Hypothesis WF : wf_scene sc.
-  Hypothesis Hnd : s_nd sc = 1.                       (* diffuse walls: one outgoing slot *)
-  Variable rho : nat -> T.                            (* reflectance of wall w in band b *)
-  Hypothesis Hdiff : forall w a d, beta sc w a d b = rho w.
-  Hypothesis Hb : b < s_nb sc.
   Hypothesis area_nz : forall i, i < s_np sc -> area sc i <> 0%T.
 
   Definition ps : list nat := seq 0 (s_np sc).
   Definition Gm (i j : nat) : T :=
     if vis_sym sc i j then (ff_full sc i j * attn sc b (dist sc i j))%T else 0%T.
-  Definition rhoP (j : nat) : T := rho (wall sc j).
   Definition iaP (i : nat) : T := (1 / area sc i)%T.
   Definition deltaP (i j : nat) : nat := scene_delta sc tm i j.
 
@@ -84,6 +79,12 @@ Section RecipModel.
         [ring|rewrite tinv_r by exact Haj; ring].
     - assert (i = j) by lia. subst. reflexivity.
   Qed.
+
+  Hypothesis Hnd : s_nd sc = 1.                       (* diffuse walls: one outgoing slot *)
+  Variable rho : nat -> T.                            (* reflectance of wall w in band b *)
+  Hypothesis Hdiff : forall w a d, beta sc w a d b = rho w.
+  Hypothesis Hb : b < s_nb sc.
+  Definition rhoP (j : nat) : T := rho (wall sc j).
 
   (** a point of the room in both roles *)
   Record point_data := mkPoint {
